@@ -116,6 +116,44 @@ def dtype_parser(chk, r):
                 chk.violation("dtype-name/print-parse-roundtrip", dict(kind=k, subtype=st, printed=name, parsed=str(back)))
 
 
+def rewritten_datasets(chk, r, tmp):
+    """the same path / the same glob read again after what is stored there has changed: the second read returns what is there now"""
+    import dask.dataframe as dd
+    from spatialpandas.io import read_parquet, read_parquet_dask, to_parquet
+    rep = dict(api="parquet round trip", layout="path or glob read, rewritten, read again")
+    try:
+        path = os.path.join(tmp, "rewritten.parq")
+        for step, (n, npart) in enumerate(((6, 2), (15, 5), (9, 3), (20, 7))):
+            df = make_frame(r, n, ["line"], ["float64"], "named", "plain")
+            dd.from_pandas(df, npartitions=npart).to_parquet(path, overwrite=True)
+            back = read_parquet_dask(path).compute()
+            chk.evaluated(n)
+            if not compare(chk, "dask-rewritten-path", df, back, dict(rep, step=step, rows=n, partitions=npart)):
+                return
+        gdir = os.path.join(tmp, "globbed")
+        os.makedirs(gdir)
+        frames = []
+        for step in range(3):
+            df = make_frame(r, 4 + step, ["point"], ["float64"], "default", "plain")
+            frames.append(df)
+            dd.from_pandas(df, npartitions=2).to_parquet(os.path.join(gdir, f"d{step}.parq"))
+            back = read_parquet_dask(os.path.join(gdir, "d*.parq")).compute()
+            want = pd.concat(frames)
+            chk.evaluated(len(want))
+            if [int(x) for x in back["a"]] != [int(x) for x in want["a"]] or len(back) != len(want):
+                chk.violation("parquet/dask-glob-read-again/rows-differ", dict(rep, step=step, got=[int(x) for x in back["a"]], expected=[int(x) for x in want["a"]])); return
+        ppath = os.path.join(tmp, "rewritten_pandas.parq")
+        for step, n in enumerate((5, 11, 3)):
+            df = make_frame(r, n, ["polygon"], ["float64"], "unnamed", "plain")
+            to_parquet(df, ppath)
+            chk.evaluated(n)
+            if not compare(chk, "pandas-rewritten-path", df, read_parquet(ppath), dict(rep, step=step, rows=n)):
+                return
+    except Exception as e:  # noqa: BLE001
+        chk.violation(f"parquet/read-again-raises-{common.err_kind(e)}", dict(rep, error=repr(e)[:300]))
+    chk.count("rewritten-and-read-again")
+
+
 def run_cases(chk, tier):
     import dask
     import dask.dataframe as dd
@@ -124,6 +162,7 @@ def run_cases(chk, tier):
     r = common.rng(PROP)
     dtype_parser(chk, r)
     tmp = tempfile.mkdtemp(prefix="spv_c11_")
+    rewritten_datasets(chk, r, tmp)
     rounds = 21 if tier == "quick" else 250
     try:
         for k in range(rounds):
